@@ -19,7 +19,7 @@ func init() {
 	harness.Register(&harness.Property{
 		ID: "C07", Run: runC07, Oracle: oracleC07,
 		Rule: "cases: every operator tree with <=3 (quick) / <=4 (thorough) operator occurrences over 45 operator forms (21 binary, 4 prefix, 6 IS forms, [NOT] BETWEEN, [NOT] IN with 1/2 values, [NOT] IN UNNEST, .field, [index]) " +
-			"and atoms (identifier, parameter, call, integer literal), random trees of depth <=8 beyond; each printed minimally parenthesised by the documented table and fully parenthesised by the model's own printer. " +
+			"and atoms (identifier, parameter, call, integer and float literal), random trees of depth <=8 and chains of 60-420 operands at one precedence level (left-deep, right-deep, balanced; plain, mixed or tuple operands) beyond; each printed minimally parenthesised by the documented table and fully parenthesised by the model's own printer. " +
 			"ParseExpr must accept both, the AST converted to the model must equal the source tree with ParenExpr exactly where parentheses were written, and SQL() must re-lex to the source token sequence (<> as !=). " +
 			"Every unparenthesised chain of two comparison-family operators must be rejected. Non-trivial = tree with >=2 operators; every enumerated tree is distinct by construction (hash of its structural rendering).",
 		Assumptions: []string{"the documented table of DESIGN.md appendix A", "unary sign folding into numeric literals and Ident/Path merging are modelled explicitly"},
